@@ -604,6 +604,7 @@ type dispRun struct {
 	w        *dispWorld
 	spec     *dispSpec
 	done     []string
+	specOnly bool // the history left the model's domain on purpose: judged by the SPEC monitors only
 	failed   bool // the history cannot go on (the model driver refused the configuration)
 	diverged bool // a mismatch happened: monitor-only from there
 	ctr      uint64
@@ -618,7 +619,7 @@ type dispRun struct {
 
 type dispStats struct {
 	writes, writesOK, writesUnauth, writesEngineRej, binds, bindsOK, unbinds, unbindsOK, subsOK, unsubsOK, notifies, deniedWithSubs int
-	fulls, fullsReplace, writeAfterFull, writesFeInconsistent                                                                       int
+	fulls, fullsReplace, writeAfterFull, writesFeInconsistent, specOnly                                                             int
 	reanns, unbindAfterReann, writeAfterUnbind, writesFromRelative                                                                  int
 	covered                                                                                                                         map[string]bool // classifier:function pairs of registered functions that were visited
 }
@@ -1792,8 +1793,20 @@ func (x *dispRun) execReann(op string, f []string, p int) bool {
 func (x *dispRun) execEnt(op string, f []string, p int) bool {
 	w := x.w
 	e := dispEntP(f[2])
-	if len(e) == 1 && e[0] == 0 {
-		return false // removing the device-information entity wedges the peer: C05's subject, never generated here
+	isDevInfo := len(e) == 1 && e[0] == 0
+	if isDevInfo && f[0] == "entadd" {
+		return false
+	}
+	with0, nofeat := false, false
+	for _, t := range f[5:] {
+		with0 = with0 || t == "with0"    // the notification also carries a removal entry for [0]
+		nofeat = nofeat || t == "nofeat" // the "added" entry announces the entity WITHOUT features
+	}
+	if nofeat && f[0] == "entadd" {
+		// outside the model's domain (it knows an entity through its features; Spine.Disp.featured): from here on
+		// the history is judged by the SPEC monitors only
+		x.d = nil
+		x.specOnly = true
 	}
 	exists := w.peers[p].rd.Entity(dispEnt(e)) != nil
 	// (an "added" notification for a known entity is a re-announcement: the code re-creates the entity's feature
@@ -1806,7 +1819,11 @@ func (x *dispRun) execEnt(op string, f []string, p int) bool {
 		st = model.NetworkManagementStateChangeTypeAdded
 	}
 	before := w.digest()
-	cmd := w.discovery(p, [][]uint{e}, true, &st, f[0] == "entadd")
+	entries := [][]uint{e}
+	if with0 && f[0] == "entrem" && !isDevInfo {
+		entries = [][]uint{{0}, e} // a removal entry for the device-information entity is skipped, the others count
+	}
+	cmd := w.discovery(p, entries, true, &st, f[0] == "entadd" && !nofeat)
 	pan := w.inject(p, model.DatagramType{Header: w.nmHeader(p, ctr, model.CmdClassifierTypeNotify, ack), Payload: model.PayloadType{Cmd: []model.CmdType{cmd}}})
 	h.Settle(x.base)
 	x.ev.take()
@@ -1832,7 +1849,10 @@ func (x *dispRun) execEnt(op string, f []string, p int) bool {
 		}
 		x.unchanged(before, op)
 	}
-	if f[0] == "entrem" && exists {
+	if f[0] == "entrem" && w.peers[p].rd.Entity(dispEnt([]uint{0})) == nil {
+		x.fail("C05/device-information-entity-removed", fmt.Sprintf("%s: the peer's device-information entity is gone, the peer cannot be answered any more", op))
+	}
+	if f[0] == "entrem" && exists && !isDevInfo {
 		es := f[2]
 		for pr := range x.spec.binds {
 			if dispEntOf(pr.client) != es {
@@ -1878,7 +1898,7 @@ func (x *dispRun) finish() {
 	}
 	h.Settle(x.base)
 	x.ev.take()
-	if !x.failed && !x.diverged {
+	if !x.failed && !x.diverged && !x.specOnly {
 		x.r.Traces++
 	}
 }
@@ -1983,6 +2003,18 @@ func dispWitnessReconnect() []string {
 	lim := strconv.Itoa(dispFnID[dispFnLimit])
 	return []string{dispWorldFixed, "conn 1", "dg 1 1/1 1/1 101 - read 0 " + lim, "drop 1", "conn 1", "dg 1 1/1 1/1 102 - read 1 " + lim, "dg 1 1/1 7/7 103 - read 0 " + lim,
 		"drop 1", "conn 1", "dg 1 1/1 1/1 104 - read 0 " + lim}
+}
+
+// removal entries naming the device-information entity (skipped by the handler), alone and among others; then an entity
+// announced WITHOUT features (outside the model's domain: SPEC only from there): a full notification listing it leaves
+// it featureless, its removal drops the binding its former feature holds
+func dispWitnessDevInfoAndFeatureless() []string {
+	lim := strconv.Itoa(dispFnID[dispFnLimit])
+	lc := strconv.Itoa(dispTypeID[model.FeatureTypeTypeLoadControl])
+	return []string{dispWorldFixed, "conn 1", "bind 1 1/1 1/1 " + lc + " 101 1", "bind 1 2/2 2/2 " + lc + " 102 1", "entrem 1 0 103 1", "dg 1 1/1 1/1 104 - write 1 " + lim + " v=3",
+		"entrem 1 2 105 1 with0", "dg 1 0/0 0/0 106 - read 0 901", "dg 1 2/2 2/2 107 - write 1 " + lim + " v=4",
+		"entadd 1 1 108 1 nofeat", "dg 1 1/1 1/1 109 - write 1 " + lim + " v=5", "full 1 0,1,2 110 1", "dg 1 1/1 1/1 111 - write 1 " + lim + " v=6", "entrem 1 1 112 1",
+		"entadd 1 1 113 1", "dg 1 1/1 1/1 114 - write 1 " + lim + " v=7"}
 }
 
 // ---------- generator
@@ -2474,9 +2506,23 @@ func (env *dispEnv) history(rng interface{ Intn(int) int }, n int, c03 bool) *di
 		case c < wShare+20:
 			x.exec(g.bindOp("sub", p))
 		case c < wShare+23:
-			x.exec(fmt.Sprintf("entrem %d %s %d %d", p, g.pick(dispRemEnts), g.next(), g.ack()))
+			switch k := rng.Intn(12); {
+			case k == 0: // a removal entry naming the device-information entity, alone
+				x.exec(fmt.Sprintf("entrem %d 0 %d %d", p, g.next(), g.ack()))
+			case k <= 2: // ... and among others
+				x.exec(fmt.Sprintf("entrem %d %s %d %d with0", p, g.pick(dispRemEnts), g.next(), g.ack()))
+			default:
+				x.exec(fmt.Sprintf("entrem %d %s %d %d", p, g.pick(dispRemEnts), g.next(), g.ack()))
+			}
 		case c < wShare+27:
-			x.exec(fmt.Sprintf("entadd %d %s %d %d", p, g.pick(dispRemEnts), g.next(), g.ack()))
+			if i > n/2 && rng.Intn(8) == 0 {
+				// an entity announced without features stays known, featureless: outside the model's domain, the rest
+				// of the history (a full notification listing it, its removal, writes) is judged by the SPEC only
+				x.exec(fmt.Sprintf("entadd %d %s %d %d nofeat", p, g.pick(dispRemEnts), g.next(), g.ack()))
+				x.st.specOnly++
+			} else {
+				x.exec(fmt.Sprintf("entadd %d %s %d %d", p, g.pick(dispRemEnts), g.next(), g.ack()))
+			}
 		case c < wShare+29:
 			x.exec(fmt.Sprintf("drop %d", p))
 		case c < wShare+34:
@@ -2550,7 +2596,7 @@ func TestDispatch(t *testing.T) {
 		"every step compared with Spine.Disp (outputs per connection incl. error numbers, write effect) and judged by the C01 rule table on the "+
 		"outbound trace of ALL peers and by the C03 monitor (data digests through the public API, notifications, events, SPEC binding registry). "+
 		"Not generated on purpose: the empty discovery reply (panics) and the *empty full discovery notification* (wipes the peer's entities and "+
-		"wedges the peer) - both belong to C05; removal of entity [0]; delete calls naming another "+
+		"wedges the peer) - both belong to C05; delete calls naming another "+
 		"peer's device (C09). non-trivial = distinct (classifier, function, ack, destination kind, role, registered) -> response shape of "+
 		"well-formed datagrams from announced features")
 	defer r.Write()
@@ -2620,7 +2666,7 @@ func TestDispatch(t *testing.T) {
 
 	// ---- corpus: the witnesses (each known finding is reproduced on every run), then past failures
 	for _, ops := range [][]string{dispWitnessResult(), dispWitnessUnbind(), dispWitnessEntity(), dispWitnessDrop(), dispWitnessPrefix(), dispWitnessReann(), dispWitnessFull(),
-		dispWitnessFunctionElement(), dispWitnessReconnect()} {
+		dispWitnessFunctionElement(), dispWitnessReconnect(), dispWitnessDevInfoAndFeatureless()} {
 		env.runOps(r, ops, true)
 	}
 
@@ -2698,6 +2744,7 @@ func TestDispatch(t *testing.T) {
 		"writes_from_parent_or_sub_entity_of_a_bound_feature": st.writesFromRelative, "subscriptions_deleted": st.unsubsOK}
 	r.Info["full_notifications"] = map[string]int{"total": st.fulls, "replacing_an_entity": st.fullsReplace, "writes_from_a_dropped_holder": st.writeAfterFull}
 	r.Info["writes_with_inconsistent_function_element"] = st.writesFeInconsistent
+	r.Info["histories_continued_outside_the_model_domain_(featureless_entity)_judged_by_SPEC_only"] = st.specOnly
 	r.Floor("full notifications that replace an entity (per 1000 steps)", st.fullsReplace*1000, r.Evaluations, 2)
 	r.Floor("writes from a holder a full notification dropped (per 1000 writes)", st.writeAfterFull*1000, st.writes, 5)
 	r.Floor("writes with an inconsistent function element (per 1000 writes)", st.writesFeInconsistent*1000, st.writes, 30)
